@@ -112,7 +112,9 @@ def transpile_token(
                 after_char = next(iterator, "")
                 if after_char == "`":
                     temp += "`"
-                else:
+                elif after_char:
+                    # a lone backslash at the very end has nothing to escape
+                    # (it would escape the closing quote of the literal)
                     temp += "\\" + after_char
             elif char == '"':
                 temp += '\\"'
